@@ -513,7 +513,8 @@ def run_case_here(case, outpath, scratch):
                                           join_timeout=case.get("join_timeout"))
         else:
             wcls = pw.WORKER_CLASS[start_method]
-            workers = [wcls(sh, case.get("functor_quota") or math.inf, faults.get(i), i, case.get("end_delay", 0),
+            workers = [wcls(sh, 0 if (case.get("zero_quota_worker") and i == 0) else (case.get("functor_quota") or math.inf),
+                            faults.get(i), i, case.get("end_delay", 0),
                             case.get("begin_delay", 0) if i % 2 == 0 else 0, plan_items) for i in range(case["workers"])]
             pool = opp.FunctorPool(workers, context=ctx, work_queue_maxsize=wq, results_queue_maxsize=rq,
                                    join_timeout=case.get("join_timeout"))
@@ -1019,7 +1020,9 @@ def lifecycle_findings(case, result):
             out.append(("end-missing", f"worker wid={wid} pid={pid} ({'faulted' if faulted else 'joined'}) never ran end(); "
                         f"events {names[-4:]}"))
         quota = case.get("quota") or case.get("functor_quota")
-        if quota:
+        if case.get("zero_quota_worker") and case["pool"] != "factory" and wid == 0:
+            quota = 0           # a stand-by worker: it starts, takes nothing and ends
+        if quota or quota == 0:
             chunks = {(e["call"], e["idx"] // case["calls"][e["call"]]["chunk"]) for e in es if e["ev"] == "item"}
             if len(chunks) > quota:
                 out.append(("quota-exceeded", f"worker wid={wid} processed {len(chunks)} chunks, quota is {quota}"))
